@@ -47,6 +47,9 @@ CHECKS = {
  "C17": dict(level="fault_enumeration", technique="single-fault enumeration: every fault of a catalogue placed at every applicable syntactic site of well-formed base specifications, plus benign variants; front end executed on each",
    text="Every fault of the catalogue at every site is rejected with a diagnostic whose file:line lies inside the faulty declaration (the harness prints the text, so it knows the spans); every benign variant of the well-formed bases is accepted.",
    note="Bounded by the two base specifications and the catalogue in cmd/loxmc/c17.go. A mode block cannot be re-opened in lox, so in-mode sites stay in the mode's file.", ref="DESIGN.md section C17"),
+ "C12": dict(level="fault_enumeration", technique="deviation-bounded exhaustive exploration around valid inputs (bound 1): every single token-level and byte-level deviation at every position of the seeds, whole pipeline executed in process under recover(); finite Go-package menu through the real binary",
+   text="Every single-token deletion, duplication, transposition, replacement and insertion (menu of ~75 extreme lexemes), every truncation and every special-byte substitution of the seed specifications goes through the whole generator: it must return, never panic, and either produce three complete Go files or at least one diagnostic. About 35 package configurations (missing, ill-typed, ill-shaped, stale files, no module) are run through the real lox binary.",
+   note="Bound 1 only. No exact hang criterion exists inside the generator: a 120 s watchdog ends a shard as inconclusive (exit 0), never as a violation. Whether accepted output compiles with the package is left to C06.", ref="DESIGN.md section C12"),
 }
 
 NA_REASON = "check not built yet (work in progress; see DESIGN.md for the plan)"
